@@ -250,6 +250,26 @@ def mon_C04_raw(raw_blocks, stats):
                 break
     return out
 
+# ---- C12 ---------------------------------------------------------------------------------------------
+def mon_C12(md_lib, cfg, ops, impl, stats, r=None):
+    out = []
+    for k, block in enumerate(impl):
+        op = ops[k] if k < len(ops) else None
+        if not op or op[0] not in ("process", "drain", "drain1"):
+            continue
+        throws = [c for _, c in (op[4] if op[0] == "process" else op[2]) if c[0] == "throw"]
+        ecs = [l for l in block if l.startswith("EC ")]
+        if throws:
+            stats.dist[("ops-with-planned-throw",)] += 1
+        if ecs:
+            stats.dist[("exception_caught", len(ecs))] += 1
+            stats.nontrivial.add(("C12", k, tuple(block[:3])))
+        if "ESC" in block:
+            out.append("op %d: an exception escaped %s" % (k, op[0]))
+        if len(ecs) > len(throws):
+            out.append("op %d: exception_caught invoked %d times for %d planned throws" % (k, len(ecs), len(throws)))
+    return out
+
 # ---- known findings ------------------------------------------------------------------------------------
 def is_known(prop, violation, findings):
     """a monitor violation is a known finding only if it comes from the pinned replay of that finding"""
